@@ -135,6 +135,11 @@ HasValue(pr, i) == pr.f[i].pres /\ (Fields[i].name \in {"TextureEntry", "NameVal
 
 \* ---------------------------------------------------------------- content variants of the bounded model
 Fill(i, n) == [j \in 1..n |-> ((13 * i + 5 * j) % 100) + 1]      \* bytes 1..100: finite floats, no NUL
+\* filler of the plain fixed-width fields per payload variant: low bytes, high bytes (sign bits set), mixed.
+\* Never 00, and never 7F/FF so that no float in a filled field is NaN or infinite.
+FillV(i, n, w) == CASE w = 1 -> Fill(i, n)
+                    [] w = 2 -> [j \in 1..n |-> Fill(i, n)[j] + 128]
+                    [] OTHER -> [j \in 1..n |-> LET x == ((37 * i + 11 * j) % 251) + 1 IN IF x = 127 THEN 126 ELSE x]
 PSys68 == Fill(50, 68)
 PData18 == <<3, 0, 0, 0>> \o Fill(51, 14)                         \* particle data flags without glow/blend
 TE46 == Fill(60, 16) \o <<0>> \o Fill(61, 4) \o <<0>> \o Fill(62, 4) \o <<0>> \o Fill(63, 4) \o <<0, 5, 1>>
@@ -143,7 +148,7 @@ TE46 == Fill(60, 16) \o <<0>> \o Fill(61, 4) \o <<0>> \o Fill(62, 4) \o <<0>> \o
 TE80 == Fill(60, 16) \o <<1>> \o Fill(64, 16) \o SubSeq(TE46, 17, 46) \o <<0>> \o Fill(65, 16)
 NV1 == <<97, 32, 83, 84, 82, 73, 78, 71, 32, 82, 87, 32, 83, 86, 32, 98>>                  \* "a STRING RW SV b"
 NV2 == <<110, 32, 83, 51, 50, 32, 82, 32, 83, 32, 53, 10>> \o <<109, 32, 85, 51, 50, 32, 82, 87, 32, 68, 83, 32, 54>>  \* "n S32 R S 5\nm U32 RW DS 6"
-Variant(nm, i, v) ==
+Variant(nm, i, v, w) ==
   CASE nm = "State" -> (CASE v = 1 -> <<18>> [] v = 2 -> <<0>> [] OTHER -> <<244>>)
     [] nm = "Material" -> (CASE v = 1 -> <<3>> [] v = 2 -> <<2>> [] OTHER -> <<255>>)
     [] nm = "ScratchPad" -> (CASE v = 1 -> <<7>> [] v = 2 -> <<>> [] OTHER -> <<0, 255, 0>>)
@@ -159,7 +164,7 @@ Variant(nm, i, v) ==
     [] nm = "PSBlockNew" -> (CASE v = 1 -> LE32(68) \o PSys68 \o LE32(18) \o PData18
                                [] v = 2 -> <<>>
                                [] OTHER -> PSys68 \o PData18)
-    [] OTHER -> Fill(i, Fields[i].n)
+    [] OTHER -> FillV(i, Fields[i].n, w)
 Varied == {"State", "Material", "ScratchPad", "Text", "MediaURL", "ExtraParams", "NameValue", "TextureEntry", "PSBlockNew"}
 
 \* ---------------------------------------------------------------- the encoder machine
@@ -173,7 +178,7 @@ vars == <<flags, hi, pcode, v0, idx, buf, emitted>>
 
 Content(i, v) == CASE i = FlagsIdx -> LE32(flags + hi)
                    [] i = PCodeIdx -> <<pcode>>
-                   [] OTHER -> Variant(Fields[i].name, i, v)
+                   [] OTHER -> Variant(Fields[i].name, i, v, v0)
 
 Init == /\ flags \in FlagWords /\ hi \in HighBits /\ pcode \in PCodes /\ v0 \in Variants
         /\ idx = 1 /\ buf = <<>> /\ emitted = <<>>
